@@ -23,9 +23,9 @@ if [ -z "$SKIP_SUITE" ]; then
 fi
 if [ -x "$out/demo/run.sh" ]; then
   d1=$(mktemp -d /tmp/seeddemoXXXX); cp -r "$out/demo/." "$d1/"
-  if (cd "$d1" && ./run.sh "$wt") > "$out/demo-patched.log" 2>&1; then echo "demo-on-patched: PASSES (unexpected)" >> "$res"; else echo "demo-on-patched: fails (expected)" >> "$res"; fi
+  if (cd "$d1" && ./run.sh "$wt") > "$out/demo-patched.log" 2>&1 && ! grep -q '^FAIL\|^--- FAIL\|^panic:' "$out/demo-patched.log"; then echo "demo-on-patched: PASSES (unexpected)" >> "$res"; else echo "demo-on-patched: fails (expected)" >> "$res"; fi
   d2=$(mktemp -d /tmp/seeddemoXXXX); cp -r "$out/demo/." "$d2/"
-  if (cd "$d2" && ./run.sh /repo) > "$out/demo-unchanged.log" 2>&1; then echo "demo-on-unchanged: passes (expected)" >> "$res"; else echo "demo-on-unchanged: FAILS (unexpected)" >> "$res"; fi
+  if (cd "$d2" && ./run.sh /repo) > "$out/demo-unchanged.log" 2>&1 && ! grep -q '^FAIL\|^--- FAIL\|^panic:' "$out/demo-unchanged.log"; then echo "demo-on-unchanged: passes (expected)" >> "$res"; else echo "demo-on-unchanged: FAILS (unexpected)" >> "$res"; fi
   rm -rf "$d1" "$d2"
 else
   echo "demo: no run.sh (see demo/RUN.md)" >> "$res"
@@ -36,5 +36,5 @@ for id in "$@"; do
   grep -m2 '  detail:' "$out/check-$id.log" | cut -c1-300 >> "$res"
 done
 git -C /repo worktree remove --force "$wt" >/dev/null 2>&1
-rm -rf /tmp/verif-mut-out
+rm -rf "/tmp/verif-mut-out-$(basename $wt)"
 cat "$res"
